@@ -113,7 +113,7 @@ func VerifInternalAuth() {
 	}
 	req := &Request{
 		Action:               verifActions[vnd.Choose("action", len(verifActions))],
-		Path:                 verifShort("path", 0),
+		Path:                 vnd.String("path", vnd.Choose("pathlen", vnd.Bound("path_len", 2)+1)),
 		Credentials:          &Credentials{User: verifShort("user", 0), Pass: verifShort("pass", 0)},
 		IP:                   net.IP(vnd.Bytes("ip", 4)),
 		EnableAskCredentials: vnd.Bool("ask"),
